@@ -135,6 +135,38 @@ func (c *Ctx) flushUnmodified(rule string) {
 		r.Check(ok, rule, name, "WriteState("+rw+")", posf(c, call), "queue field "+evs+" handed to its own store unmodified", sprintf("WriteState on %s receives state %q and events %q: the queued events are not handed over as queued (copied, reordered, filtered) or cross families", rw, st, evs))
 	}
 	r.Check(n == 2, rule, name, "two WriteState calls", c.P.Pos(fn.Pos()), "one per store", sprintf("expected 2 WriteState calls, found %d", n))
+	// … and to nothing else on the way: whatever else receives the queue (a sort
+	// in place, a filter writing through the same backing array) can reorder or
+	// rewrite the events before the store sees them
+	for _, b := range fn.Blocks {
+		for _, in := range b.Instrs {
+			ld, ok := in.(*ssa.UnOp)
+			if !ok {
+				continue
+			}
+			fld := fieldLoadName(ld)
+			if (fld != "sessionStateEvents" && fld != "cookieStateEvents") || ld.Referrers() == nil {
+				continue
+			}
+			for _, ref := range *ld.Referrers() {
+				okUse := false
+				switch x := ref.(type) {
+				case *ssa.Call:
+					if bi, isB := x.Call.Value.(*ssa.Builtin); isB && (bi.Name() == "len" || bi.Name() == "cap") {
+						okUse = true
+					}
+					if Callee(x) == "(ab.ClientStateReadWriter).WriteState" {
+						okUse = true
+					}
+				case *ssa.BinOp, *ssa.DebugRef, *ssa.Range:
+					okUse = true
+				}
+				if !okUse {
+					r.Bad(rule, name, fld+" handed on", posf(c, ref), "the queued events are handed to something other than their store before the flush ("+truncateStr(ref.String(), 60)+"): they can be reordered or rewritten in place, so the store does not receive the changes in the order the handlers made them")
+				}
+			}
+		}
+	}
 	// a store that could not write makes the flush fail: the caller then panics
 	// (WriteHeader) or reports the error (Write) instead of sending a response
 	// that pretends the state was changed
